@@ -327,14 +327,18 @@ def run_vh(sub, cases, timeout=900, args=()):
 def known_findings(prop):
     """[(key, description)] for `finding:` lines of known_findings.txt for prop"""
     out = []
-    p = os.path.join(VERIF, "known_findings.txt")
-    if not os.path.exists(p):
-        return out
-    for line in open(p):
-        line = line.strip()
-        m = re.match(r"finding:\s+property=(\S+)\s+key=(\S+)\s+(.*)", line)
-        if m and m.group(1) == prop:
-            out.append((m.group(2), m.group(3)))
+    paths = [os.path.join(VERIF, "known_findings.txt")]
+    d = os.path.join(VERIF, "known_findings.d")
+    if os.path.isdir(d):
+        paths += [os.path.join(d, f) for f in sorted(os.listdir(d)) if f.endswith(".txt")]
+    for p in paths:
+        if not os.path.exists(p):
+            continue
+        for line in open(p):
+            line = line.strip()
+            m = re.match(r"finding:\s+property=(\S+)\s+key=(\S+)\s+(.*)", line)
+            if m and m.group(1) == prop:
+                out.append((m.group(2), m.group(3)))
     return out
 
 
@@ -360,6 +364,10 @@ class Reporter:
                 print("KNOWN-FINDING: property=%s %s [%s]" % (self.prop, self.known[key], key), flush=True)
             self.known_hit[key] += 1
             return False
+        dump = os.environ.get("VERIF_DUMP_KEYS")      # development aid: collect keys to review by hand
+        if dump:
+            with open(dump, "a") as f:
+                f.write("%s\t%s\t%s\n" % (self.prop, key, what.replace("\n", " ")[:300]))
         h = hashlib.sha1(json.dumps(replay_obj, sort_keys=True, default=str).encode()).hexdigest()[:12]
         path = os.path.join(REPLAY, "%s-%s.json" % (self.prop, h))
         obj = {"property": self.prop, "key": key, "what": what, "seed": self.seed, "tier": self.tier}
@@ -486,3 +494,112 @@ def standard_run(prop, tier, seed, replay, *, dirs, props_file, trusted, gen_cas
         "harness_build_s": round(bt, 1),
     })
     return rep.finish()
+
+
+# ----------------------------------------------------------------------------
+# robust parallel runner for whole-program cases (formatting may hang, abort or overflow the stack)
+
+
+class _Worker:
+    def __init__(self, sub):
+        self.sub = sub
+        self.start()
+
+    def start(self):
+        r, w = os.pipe()
+        env = dict(os.environ)
+        env.update(rust_env())
+        env["VH_OUT_FD"] = str(w)
+        env["RUST_BACKTRACE"] = "0"
+        exe = os.path.join(TARGET, "debug", "vh")
+        self.p = subprocess.Popen([exe, self.sub], stdin=subprocess.PIPE, stdout=subprocess.DEVNULL,
+                                  stderr=subprocess.PIPE, pass_fds=[w], env=env)
+        os.close(w)
+        self.r = os.fdopen(r, "rb", buffering=0)
+        self.buf = b""
+        os.set_blocking(self.p.stderr.fileno(), False)
+
+    def stderr_tail(self):
+        try:
+            data = self.p.stderr.read() or b""
+        except Exception:
+            data = b""
+        return data[-1500:].decode("utf-8", "replace")
+
+    def kill(self):
+        try:
+            self.p.kill()
+            self.p.wait(timeout=5)
+        except Exception:
+            pass
+        try:
+            self.r.close()
+        except Exception:
+            pass
+
+    def ask(self, case, timeout):
+        import select
+        try:
+            self.p.stdin.write((json.dumps(case) + "\n").encode())
+            self.p.stdin.flush()
+        except (BrokenPipeError, OSError):
+            tail = self.stderr_tail()
+            rc = self.p.poll()
+            self.kill()
+            self.start()
+            return {"crash": rc, "stderr": tail}
+        deadline = time.time() + timeout
+        while b"\n" not in self.buf:
+            left = deadline - time.time()
+            if left <= 0:
+                tail = self.stderr_tail()
+                self.kill()
+                self.start()
+                return {"timeout": timeout, "stderr": tail}
+            rl, _, _ = select.select([self.r], [], [], min(left, 1.0))
+            if rl:
+                chunk = os.read(self.r.fileno(), 1 << 16)
+                if not chunk:
+                    rc = self.p.wait()
+                    tail = self.stderr_tail()
+                    self.kill()
+                    self.start()
+                    return {"crash": rc, "stderr": tail}
+                self.buf += chunk
+        line, self.buf = self.buf.split(b"\n", 1)
+        # drain stderr so the pipe cannot fill up
+        err = self.stderr_tail()
+        res = json.loads(line)
+        if isinstance(res, dict) and err:
+            res["stderr"] = err[-600:]
+        return res
+
+
+def run_vh_pool(sub, cases, per_case_timeout=20, workers=None):
+    """run cases through `vh <sub>` worker processes; a hang / abort / stack overflow of one case is
+    recorded as {"timeout":..} / {"crash": returncode} for that case only"""
+    workers = workers or NCPU
+    results = [None] * len(cases)
+    idx = {"i": 0}
+    import threading
+    lock = threading.Lock()
+
+    def loop():
+        w = _Worker(sub)
+        try:
+            while True:
+                with lock:
+                    i = idx["i"]
+                    if i >= len(cases):
+                        return
+                    idx["i"] = i + 1
+                results[i] = w.ask(cases[i], per_case_timeout)
+        finally:
+            w.kill()
+
+    ths = [threading.Thread(target=loop) for _ in range(min(workers, max(1, len(cases))))]
+    for t in ths:
+        t.start()
+    for t in ths:
+        t.join()
+    return results
